@@ -616,16 +616,17 @@ pub fn run_one(check: &str, tier: Tier, seed: u64, index: u64, scratch: &Scratch
         "C08" if index >= (if tier == Tier::Quick { 192 } else { 4_000 }) => crate::pipeline::run_check("C08", tier, seed, index, scratch, &mut rec),
         "C08" => crate::grid::run_c08(tier, seed, index, scratch, &mut rec),
         "C14" => crate::crash::run_c14(tier, seed, index, scratch, &mut rec),
-        // one run in sixteen carries the chain out for real (in_toto_run per step, artifact transport)
+        // one run in sixteen carries the chain out for real (in_toto_run per step, artifact transport); chosen by
+        // blocks of sixteen indices so that the costly runs spread over all workers (worker = index mod workers)
         // (SCSIM_ONLY_PIPELINE: a debugging aid for sensitivity trials — every run of the check is a pipeline run)
         "C03" | "C18" if std::env::var_os("SCSIM_ONLY_PIPELINE").is_some() => crate::pipeline::run_check(check, tier, seed, index, scratch, &mut rec),
-        "C03" if index % 16 == 5 => crate::pipeline::run_check("C03", tier, seed, index, scratch, &mut rec),
+        "C03" if (index >> 4) % 16 == 5 => crate::pipeline::run_check("C03", tier, seed, index, scratch, &mut rec),
         "C03" => crate::rules::run_c03(tier, seed, index, scratch, &mut rec),
         "C04" => crate::ceremony::run_c04(tier, seed, index, &mut rec),
         "C09" => crate::ceremony::run_c09(tier, seed, index, &mut rec),
         "C05" => crate::ceremony::run_c05(tier, seed, index, &mut rec),
         "C17" => crate::channel::run_c17(tier, seed, index, scratch, &mut rec),
-        "C18" if index % 64 == 7 => crate::pipeline::run_check("C18", tier, seed, index, scratch, &mut rec),
+        "C18" if (index >> 4) % 64 == 7 => crate::pipeline::run_check("C18", tier, seed, index, scratch, &mut rec),
         "C18" => crate::recorder::run_c18(tier, seed, index, scratch, &mut rec),
         _ => panic!("unknown check {check}"),
     }
